@@ -146,7 +146,11 @@ def _sym_task(task, out):
                                 continue  # 1-D per-axis is rejected (C14 judges the exception type)
                             qt_ = quantize_weight(x, num.qt(q), axis)
                             sc = qt_._scale
-                            jaxis = qt_.axis
+                            # expected axis: the requested one, per-tensor only when that axis has a single index
+                            jaxis = None if shape[axis] == 1 else axis
+                            if qt_.axis != jaxis:
+                                out["violations"].append(violation(PID, case, dict(fields, sub="axis"), f"axis: quantize_weight({q}) of shape {shape} along axis {axis} reports axis {qt_.axis}, expected {jaxis}"))
+                                continue
                             if tuple(qt_.shape) != tuple(x.shape):
                                 out["violations"].append(violation(PID, case, dict(fields, sub="meta"), f"meta: quantized shape {tuple(qt_.shape)}"))
                                 continue
